@@ -204,6 +204,8 @@ PARTS = {"unit": check_unit, "model": check_model}
 @st.composite
 def unit_cases(draw):
     case = draw(G.unit_case(CMDS, max_rank=2, dtypes=("float64", "int64", "float64", "int64", "float32", "int32"), tiny=True))
+    if case["cmd"] == "Copy" and draw(st.booleans()):
+        case["inputs_fuzzy"] = True  # Copy takes any data result, also one declared fuzzy by its producer
     if case["cmd"] in WEIGHTED and draw(st.integers(0, 2)) == 0:
         case["weights_as"] = draw(st.sampled_from(["float32", "float64", "float16", "int64", "int32"]))
     return case
